@@ -24,6 +24,9 @@ for d in sorted(glob.glob(os.path.join(root, "*"))):
         if any(b.startswith("correspondence") for b in j.get("broken", [])):
             by += "; model/implementation correspondence broken"
     res = {"1": "VIOLATION", "0": "**missed**"}.get(rc, rc)
+    if meta.get("obsolete") and rc == "0":
+        res = "silent (rightly)"
+        by = "no longer a violation: " + meta["obsolete"]
     if "no-failing-input-found" in t:
         res += " (no-failing-input-found)"
     needs = meta.get('needs_to_manifest', '').replace('|', '¦')
